@@ -6,7 +6,7 @@
    All theorems quantify over every file system (any links: inside, outside, chained, dangling, looping), every
    base / root directory and every identifier string.  Races between check and use are not modelled. *)
 From Coq Require Import List NArith Bool.
-From C2PA Require Import Model.FsPaths Proofs.FsPathsProofs.
+From C2PA Require Import Model.FsPaths Proofs.FsPathsProofs Proofs.FsWriteProofs.
 Import ListNotations.
 Open Scope N_scope.
 
@@ -37,7 +37,8 @@ Theorem c29_lexical_resolve :
     resolve_within_root f base root id = Some j ->
     j = join_os base id /\ has_byte BACKSLASH id = false /\ rooted id = false /\
     (exists x, normalize_lexically (join base id) = abs (root ++ x)) /\
-    (forall ct, canon f j = Some ct -> exists cr, canon f (abs root) = Some cr /\ loc_prefix cr ct = true).
+    (forall ct, canon f j = Some ct -> exists cr, canon f (abs root) = Some cr /\ loc_prefix cr ct = true) /\
+    (canon f j = None -> ensure_real_parent_within_root f root (join_os base id) (join base id) = EOk).
 Proof. exact resolve_some. Qed.
 
 (* uri_to_path (Reader::to_folder): same guarantee as sanitize, for every URI and manifest label *)
@@ -70,38 +71,60 @@ Proof. exact exists_confined. Qed.
 
 (* ---- write side ---- *)
 
-(* F-SYMLINK-WRITE: root/ contains link -> ../outside; add("link/evil.txt") writes outside/evil.txt while get and
-   exists through the same link are refused (corpus/C29.jsonl line 1, replayed on the implementation by ./check) *)
-Theorem c29_write_confined_refuted :
-  canon w_fs (abs [n_root]) = Some [n_root]
-  /\ add w_fs [n_root] id_link_evil [68] = (OkUnit, [TFollow [n_outside]; TWrite [n_outside; n_evil]])
-  /\ loc_prefix [n_root] [n_outside; n_evil] = false
-  /\ fst (get w_fs [n_root] [n_root] id_link_secret) = ErrNotFoundId
-  /\ fst (exists_op w_fs [n_root] [n_root] id_link_secret) = OkBool false.
-Proof. exact write_refuted. Qed.
+(* ResourceStore::add after 791680340 (ensure_real_parent_within_root), for every well-formed file system (every entry
+   lies in a directory), whatever symbolic links it contains, every base / root / identifier: once the base
+   directory is there, everything created or written lies under realpath(root) - or nothing is written at all
+   (identifier, link or escaping ancestor refused).  No hypothesis on the links any more. *)
+Theorem c29_write_confined_add :
+  forall f base root id data o ts f0 rr ts0,
+    wf f -> add f base root id data = (o, ts) ->
+    mkdirp FUEL f [] base [] = (Some (f0, rr), ts0) ->           (* create_dir_all(base) succeeded *)
+    ts = [] \/ ts = ts0 \/
+    (exists cr, canon f0 (abs root) = Some cr /\ touches_after ts0 ts (writes_in cr)).
+Proof. exact add_confined. Qed.
 
-(* no_escaping_link_on_path = every symbolic link followed while creating the directories and opening the file
-   leads to a location under the real base directory rr ([follows_in rr] on the TFollow entries).
-   Then everything created or written is under rr.  The core shared by add / add_resource / to_folder: *)
+(* Builder::add_resource with a base path: same guarantee *)
+Theorem c29_write_confined_add_resource :
+  forall f base id data o ts f0 rr ts0,
+    wf f -> builder_add f base id data = (o, ts) ->
+    mkdirp FUEL f [] base [] = (Some (f0, rr), ts0) ->
+    Forall (fun t => match t with TWrite _ | TMkdir _ => False | _ => True end) ts \/ ts = ts0 \/
+    (exists cr, canon f0 (abs base) = Some cr /\ touches_after ts0 ts (writes_in cr)).
+Proof. exact builder_add_confined. Qed.
+
+(* the core of both: create_dir_all(parent) + write(path) after the check accepted the path *)
+Theorem c29_write_confined_after_check :
+  forall f root L data cr r ts,
+    wf f -> L <> [] ->
+    ensure_real_parent_within_root f root (abs L) (abs L) = EOk ->
+    canon f (abs root) = Some cr ->
+    write_at FUEL f [] L data = (r, ts) -> Forall (writes_in cr) ts.
+Proof. exact write_at_ensured. Qed.
+
+(* the behaviour before the repair, stated about the old function (F-SYMLINK-WRITE, fixed): root/ contains
+   link -> ../outside; the old add("link/evil.txt") wrote outside/evil.txt, the repaired one refuses and writes
+   nothing (corpus/C29.jsonl line 1 now passes as an ordinary case) *)
+Theorem c29_old_write_refuted :
+  canon w_fs (abs [n_root]) = Some [n_root]
+  /\ add_old w_fs [n_root] id_link_evil [68] = (OkUnit, [TFollow [n_outside]; TWrite [n_outside; n_evil]])
+  /\ loc_prefix [n_root] [n_outside; n_evil] = false
+  /\ add w_fs [n_root] [n_root] id_link_evil [68] = (ErrBadParam, []).
+Proof. exact write_refuted_old. Qed.
+
+(* Reader::to_folder is not repaired (open finding F-SYMLINK-EXPORT): the export follows a link present in the
+   destination folder ... *)
+Theorem c29_export_write_refuted :
+  canon w_fs (abs [n_root]) = Some [n_root]
+  /\ to_folder w_fs [n_root] [[n_link; n_evil]] = (OkUnit, [TFollow [n_outside]; TWrite [n_outside; n_evil]])
+  /\ loc_prefix [n_root] [n_outside; n_evil] = false.
+Proof. exact export_refuted. Qed.
+
+(* ... and stays inside under no_escaping_link_on_path: if every symbolic link followed while creating the
+   directories and opening the files leads under the real destination rr, everything created or written is *)
 Theorem c29_write_confined :
   forall rr fuel f ns data r ts,
     write_at fuel f rr ns data = (r, ts) -> Forall (follows_in rr) ts -> Forall (writes_in rr) ts.
 Proof. exact write_at_inside. Qed.
-
-Theorem c29_write_confined_add :
-  forall f base id data o ts f0 rr ts0,
-    add f base id data = (o, ts) ->
-    mkdirp FUEL f [] base [] = (Some (f0, rr), ts0) ->       (* the base directory resolves to rr *)
-    ts = [] \/ exists ts1, ts = ts0 ++ ts1 /\ (Forall (follows_in rr) ts1 -> Forall (writes_in rr) ts1).
-Proof. exact add_inside. Qed.
-
-Theorem c29_write_confined_add_resource :
-  forall f base id data o ts f0 rr ts0,
-    builder_add f base id data = (o, ts) ->
-    mkdirp FUEL f [] base [] = (Some (f0, rr), ts0) ->
-    Forall (fun t => match t with TWrite _ | TMkdir _ => False | _ => True end) ts \/
-    exists ts1, ts = ts0 ++ ts1 /\ (Forall (follows_in rr) ts1 -> Forall (writes_in rr) ts1).
-Proof. exact builder_add_inside. Qed.
 
 Theorem c29_write_confined_to_folder :
   forall f dest rels o ts f0 rr ts0,
@@ -112,24 +135,63 @@ Proof. exact to_folder_inside. Qed.
 
 (* ---- revealing the existence of outside files ---- *)
 
-(* F-SYMLINK-PROBE: two file systems that agree on every location under the root (they differ only in whether
-   outside/secret.txt exists) are told apart by path_for_id (None / Some), by get (ResourceNotFound(id) /
-   ResourceNotFound(path)) and by write_stream (ResourceNotFound / IoError); exists() answers the same. *)
-Theorem c29_no_reveal_refuted :
+(* path resolution and the regular files outside the root: on two file systems that differ only there,
+   canonicalize answers the same, except that it may find on one of them a file that is outside the root *)
+Theorem c29_canon_outside_files :
+  forall cr f1 f2 p, differ_in_outside_files cr f1 f2 -> same_or_outside cr (canon f1 p) (canon f2 p).
+Proof. exact canon_outside_files. Qed.
+
+(* positive answers of the read side do not depend on the files outside the root *)
+Theorem c29_no_reveal_get :
+  forall cr f1 f2 base root id c ts,
+    differ_in_outside_files cr f1 f2 ->
+    canon f1 (abs root) = Some cr -> canon f2 (abs root) = Some cr ->
+    get f1 base root id = (OkData c, ts) -> get f2 base root id = (OkData c, ts).
+Proof. exact get_positive_stable. Qed.
+
+Theorem c29_no_reveal_exists :
+  forall cr f1 f2 base root id ts,
+    differ_in_outside_files cr f1 f2 ->
+    canon f1 (abs root) = Some cr -> canon f2 (abs root) = Some cr ->
+    exists_op f1 base root id = (OkBool true, ts) -> exists_op f2 base root id = (OkBool true, ts).
+Proof. exact exists_positive_stable. Qed.
+
+(* negative answers (partial): when the target does not exist, resolve_within_root - hence path_for_id = Some, get =
+   ResourceNotFound(path), write_stream = IoError - accepts the identifier only if the path is not a link and its
+   deepest existing ancestor has its real location under the root; full equality of the negative answers on two
+   file systems that differ in outside files is not proved (it is exercised by the run). *)
+Theorem c29_no_reveal_partial :
+  forall f base root id j,
+    resolve_within_root f base root id = Some j -> canon f j = None ->
+    is_link (lstat f (join_os base id)) = false /\
+    exists cr pre d post real,
+      canon f (abs root) = Some cr /\ ancestors (join base id) = pre ++ d :: post /\
+      Forall (fun x => lstat f x = None) pre /\ lstat f d <> None /\ canon f d = Some real /\ loc_prefix cr real = true.
+Proof. exact resolve_missing_inside. Qed.
+
+(* the former witness of F-SYMLINK-PROBE (fixed): two file systems that agree under the root and differ in
+   outside/secret.txt were told apart by the old containment check; the repaired one, and path_for_id / get /
+   write_stream / exists built on it, answer the same on both *)
+Theorem c29_old_reveal_witness :
   agree_inside [n_root] w_fs w_fs0
-  /\ fst (path_for_id w_fs [n_root] [n_root] id_link_secret) = OkPath None
-  /\ (exists p, fst (path_for_id w_fs0 [n_root] [n_root] id_link_secret) = OkPath (Some p))
-  /\ fst (get w_fs [n_root] [n_root] id_link_secret) = ErrNotFoundId
-  /\ fst (get w_fs0 [n_root] [n_root] id_link_secret) = ErrNotFoundPath
-  /\ fst (write_stream w_fs [n_root] [n_root] id_link_secret) = ErrNotFoundId
-  /\ fst (write_stream w_fs0 [n_root] [n_root] id_link_secret) = ErrIo
-  /\ fst (exists_op w_fs [n_root] [n_root] id_link_secret) = fst (exists_op w_fs0 [n_root] [n_root] id_link_secret).
-Proof. exact probe_refuted. Qed.
+  /\ resolve_within_root_old w_fs [n_root] [n_root] id_link_secret = None
+  /\ (exists p, resolve_within_root_old w_fs0 [n_root] [n_root] id_link_secret = Some p)
+  /\ resolve_within_root w_fs [n_root] [n_root] id_link_secret = None
+  /\ resolve_within_root w_fs0 [n_root] [n_root] id_link_secret = None
+  /\ path_for_id w_fs [n_root] [n_root] id_link_secret = path_for_id w_fs0 [n_root] [n_root] id_link_secret
+  /\ get w_fs [n_root] [n_root] id_link_secret = get w_fs0 [n_root] [n_root] id_link_secret
+  /\ write_stream w_fs [n_root] [n_root] id_link_secret = write_stream w_fs0 [n_root] [n_root] id_link_secret
+  /\ exists_op w_fs [n_root] [n_root] id_link_secret = exists_op w_fs0 [n_root] [n_root] id_link_secret.
+Proof. exact probe_witness. Qed.
+
+(* the hypotheses are satisfiable: the witness file system is well formed *)
+Theorem c29_wf_witness : wf w_fs.
+Proof. exact wf_witness. Qed.
 
 (* non-vacuity: an internal link is followed and the write stays inside; a plain read succeeds *)
 Example c29_example :
   let f := [([n_root], Dir); ([n_root; n_link], Link [100]); ([n_root; [100]], Dir); ([n_root; [97]], File [73])] in
-  add f [n_root] id_link_evil [68] = (OkUnit, [TFollow [n_root; [100]]; TWrite [n_root; [100]; n_evil]])
+  add f [n_root] [n_root] id_link_evil [68] = (OkUnit, [TFollow [n_root; [100]]; TWrite [n_root; [100]; n_evil]])
   /\ get f [n_root] [n_root] [97] = (OkData [73], [TRead [n_root; [97]]])
   /\ sanitize [46;47;97;47;47;98;47] = Some [[97]; [98]]
   /\ sanitize [97;47;46;46;47;98] = None.
